@@ -9,7 +9,7 @@ _installed = False
 _armed = False
 _events = []
 
-WATCHED_PREFIXES = ("open", "os.", "shutil.", "socket.", "urllib.", "subprocess.", "http.", "ftplib.", "tempfile.")
+WATCHED_PREFIXES = ("open", "os.", "shutil.", "socket.", "urllib.", "subprocess.", "http.", "ftplib.", "tempfile.", "mmap.")
 WRITE_FLAGS = os.O_WRONLY | os.O_RDWR | os.O_APPEND | os.O_CREAT | os.O_TRUNC
 
 
@@ -78,6 +78,11 @@ def classify(ev):
         return "write-open"
     if event.startswith(MUTATING):
         return "mutation"
+    if event == "mmap.__new__":
+        # (fileno, length, access, offset): anything but ACCESS_READ (1) / ACCESS_COPY (3) of a real file is a shared writable mapping
+        a = ev[1]
+        if len(a) >= 3 and a[0] != -1 and a[2] not in (1, 3):
+            return "mutation"
     if event.startswith(NETWORK):
         return "network"
     if event == "open":
